@@ -542,6 +542,8 @@ func intrinsicName(fn *ssa.Function) string {
 		return s
 	case strings.HasPrefix(s, "(*sync.Mutex)."), strings.HasPrefix(s, "(*sync.RWMutex)."), strings.HasPrefix(s, "(*sync.WaitGroup)."), strings.HasPrefix(s, "(*sync.Once)."), strings.HasPrefix(s, "(*sync.Cond)."):
 		return s
+	case s == "sort.Search":
+		return s
 	case s == "errors.New", s == "fmt.Errorf", s == "errors.Is", s == "github.com/gotid/god/lib/timex.Now", s == "github.com/gotid/god/lib/timex.Since", s == "time.Now", s == "fmt.Sprintf", s == "fmt.Sprint":
 		return s
 	}
@@ -606,6 +608,27 @@ func (x *Exec) intrinsic(st *State, fr *Frame, resInstr ssa.Instruction, name st
 	case strings.HasPrefix(name, "(*sync.WaitGroup)."):
 		m := name[strings.LastIndex(name, ".")+1:]
 		st.events = append(st.events, &Event{Kind: "wg", Name: "wg." + m, Callee: args[0], Args: args[1:], Index: len(st.events)})
+		return nil, true
+	case name == "sort.Search":
+		// binary search postcondition, valid for every predicate f:
+		//   0 <= r <= n, (r == n or f(r)), (r == 0 or !f(r-1))
+		n := args[0].(Scalar).T
+		fv, ok := args[1].(FuncV)
+		if !ok || fv.Fn == nil {
+			return nil, false
+		}
+		r := x.freshValue(st, "search", resT(0)).(Scalar)
+		st.assume(and(mk(SBool, "<=", intLit(0), r.T), mk(SBool, "<=", r.T, n)))
+		at, ok1 := x.evalPureClosure(st, fv, []Value{r})
+		prev := Scalar{mk(SInt, "-", r.T, intLit(1)), r.Typ}
+		bt, ok2 := x.evalPureClosure(st, fv, []Value{prev})
+		if !ok1 || !ok2 {
+			return nil, false
+		}
+		st.assume(implies(mk(SBool, "<", r.T, n), at.(Scalar).T))
+		st.assume(implies(mk(SBool, ">", r.T, intLit(0)), not(bt.(Scalar).T)))
+		st.events = append(st.events, &Event{Kind: "call", Name: "Search", Callee: x.funcValue(fn, nil), Args: args, Results: []Value{r}, Index: len(st.events)})
+		set(r)
 		return nil, true
 	case name == "errors.New", name == "fmt.Errorf":
 		ref := x.allocRef(st)
@@ -682,4 +705,44 @@ func (x *Exec) lockEvent(st *State, fr *Frame, kind string, lock Value) {
 		delete(st.held, key)
 	}
 	x.monitorHook(st, fr, kind, p)
+}
+
+// evalPureClosure runs a closure that has a single path, no events and no stores, and returns its result as a
+// term over the current state (facts learnt on the way, e.g. ranges of loaded values, are kept). Run-time
+// checks inside it (index bounds) are not asserted: the caller uses the result only under a guard.
+func (x *Exec) evalPureClosure(st *State, fv FuncV, args []Value) (Value, bool) {
+	fn := fv.Fn
+	if fn.Blocks == nil || len(args) != len(fn.Params) {
+		return nil, false
+	}
+	side := st.clone()
+	side.frames = nil
+	nf := &Frame{fn: fn, regs: map[ssa.Value]Value{}, env: map[string]envEntry{}, loopSeen: map[*ssa.BasicBlock]bool{}, pure: true}
+	for i, p := range fn.Params {
+		nf.regs[p] = args[i]
+	}
+	for i, f := range fn.FreeVars {
+		nf.regs[f] = fv.Bind[i]
+	}
+	nf.block = fn.Blocks[0]
+	side.frames = []*Frame{nf}
+	nEv := len(side.events)
+	heapBefore := len(side.written)
+	saveRoot, saveC := x.root, x.rootC
+	defer func() { x.root, x.rootC = saveRoot, saveC }()
+	for !side.dead && len(side.frames) > 0 {
+		fr := side.top()
+		if fr.idx < len(fr.block.Instrs) {
+			if ret, ok := fr.block.Instrs[fr.idx].(*ssa.Return); ok && len(side.frames) == 1 {
+				if len(ret.Results) != 1 || len(side.events) != nEv || len(side.written) != heapBefore {
+					return nil, false
+				}
+				return x.val(side, fr, ret.Results[0]), true
+			}
+		}
+		if forks := x.step(side); len(forks) > 0 {
+			return nil, false
+		}
+	}
+	return nil, false
 }
